@@ -1,7 +1,7 @@
 (* C06 — find_jobs returns exactly the jobs a per-job reference evaluator accepts.
    Only statements; proofs are in SV.QueryProofs / SV.C06Proofs.  All theorems are parametric in the
    library oracles regex_search (re.search) and isclose (math.isclose). *)
-From SV Require Import Base Json PyVal Query QueryProofs C06Proofs CorrC06.
+From SV Require Import Base Json PyVal Query QueryProofs C06Proofs C06DocProofs CorrC06.
 
 (* FULL STATEMENT (what the property says): for every corpus c and filter f,
      find c f = Ok R  ->  forall job, In job c -> (mem job R = true <-> matches job f = Ok true).
@@ -89,17 +89,25 @@ Theorem C06_find_or : forall rs ic fuel c a b Ra Rb,
 Proof. exact find_or2. Qed.
 Print Assumptions C06_find_or.
 
-(* Project._find_job_ids (prefixing, namespace decision) against per-job evaluation *)
+(* namespace decision: a filter that names no key of the doc namespace (at any depth, also beneath
+   $not/$and/$or) never reads job documents, so leaving them out of the index changes nothing *)
+Theorem C06_doc_namespace_irrelevant : forall rs ic sc fuel pf j,
+  str_mem s_doc (root_keys fuel pf) = false ->
+  matches rs ic sc fuel (snd (job_doc true j)) pf = matches rs ic sc fuel (snd (job_doc false j)) pf.
+Proof. exact job_doc_irrelevant. Qed.
+Print Assumptions C06_doc_namespace_irrelevant.
+
+(* Project._find_job_ids (prefixing, namespace decision, index search) against per-job evaluation on
+   the job's own state point AND document *)
 Theorem C06_find_job_ids_exact_partial : forall rs ic fuel jobs f pf R,
   is_empty_filter f = false ->
   add_prefix fuel f = Ok pf ->
   let inc := str_mem s_doc (root_keys fuel pf) in
   let c := map (job_doc inc) jobs in
-  (inc = true \/ forall j, In j jobs -> j_doc j = None) ->
   NoDup (map fst c) -> NoSlotMerge c -> SlotRefl c -> AllLeaves (GoodLeaf c) fuel pf ->
   find_job_ids rs ic fuel jobs f = Ok R ->
   forall j, In j jobs -> job_matches rs ic true fuel f j = Ok (mem (j_id j) R).
-Proof. exact find_job_ids_exact_partial. Qed.
+Proof. exact find_job_ids_exact. Qed.
 Print Assumptions C06_find_job_ids_exact_partial.
 
 (* the full statement is false of the faithful model: witnesses (replayed on the implementation by
